@@ -88,6 +88,8 @@ def mutants_of(func_node, src_lines):
                 if part is not None and part.lineno == part.end_lineno:
                     t = seg(src_lines, part)
                     add(part, f"({t}) + 1", f"slice {name} bound")
+    if os.environ.get("PRSA_MUT_EXTRA"):
+        out.extend(_extra_mutants(func_node, src_lines))
     # one mutant per distinct edit
     seen, uniq = set(), []
     for m in out:
@@ -95,6 +97,54 @@ def mutants_of(func_node, src_lines):
             seen.add(m[:4])
             uniq.append(m)
     return uniq
+
+
+_SWAPS = [("alpha", "beta"), ("Alpha", "Beta"), ("cdr1", "cdr2"), ("CDR1", "CDR2"), ("TRA", "TRB"), ("CDR3A", "CDR3B"), ("row", "col"), ("seqs2", "seqs"), ("anchors", "comparisons"),
+          ("insertion", "deletion"), ("min", "max"), ("upper", "lower"), ("triu", "tril"), ("first", "last"), ("left", "right"), ("index", "columns")]
+
+
+def _swap_text(t):
+    for a, b in _SWAPS:
+        if a in t:
+            return t.replace(a, b, 1)
+        if b in t:
+            return t.replace(b, a, 1)
+    return None
+
+
+def _extra_mutants(func_node, src_lines):
+    """Second operator set (developer sweeps, PRSA_MUT_EXTRA=1): statement deletion, `not` removal, look-alike identifier / string swaps
+    (alpha <-> beta, cdr1 <-> cdr2, seqs <-> seqs2 ...), a local name replaced by another local of the function."""
+    out = []
+    locals_ = sorted({n.id for n in ast.walk(func_node) if isinstance(n, ast.Name) and isinstance(n.ctx, ast.Store)} | {a.arg for a in func_node.args.args if a.arg not in ("self", "cls")}) \
+        if isinstance(func_node, (ast.FunctionDef, ast.AsyncFunctionDef)) else []
+
+    def one_line(n):
+        return n.lineno == n.end_lineno
+    for n in ast.walk(func_node):
+        if isinstance(n, (ast.Assign, ast.AugAssign, ast.Expr)) and one_line(n) and not (isinstance(n, ast.Expr) and isinstance(n.value, ast.Constant)):
+            old = src_lines[n.lineno - 1][n.col_offset:n.end_col_offset]
+            out.append((n.lineno, n.col_offset, n.end_col_offset, "pass", f"statement deleted: `{old[:60]}`"))
+        elif isinstance(n, ast.UnaryOp) and isinstance(n.op, ast.Not) and one_line(n):
+            inner = src_lines[n.operand.lineno - 1][n.operand.col_offset:n.operand.end_col_offset] if one_line(n.operand) else None
+            if inner:
+                out.append((n.lineno, n.col_offset, n.end_col_offset, f"({inner})", f"`not` removed: `not {inner[:50]}`"))
+        elif isinstance(n, ast.Attribute) and one_line(n):
+            new = _swap_text(n.attr)
+            if new:
+                out.append((n.lineno, n.end_col_offset - len(n.attr), n.end_col_offset, new, f"look-alike attribute: `.{n.attr}` -> `.{new}`"))
+        elif isinstance(n, ast.Constant) and isinstance(n.value, str) and one_line(n) and 0 < len(n.value) <= 24:
+            new = _swap_text(n.value)
+            old = src_lines[n.lineno - 1][n.col_offset:n.end_col_offset]
+            if new and old[:1] in "'\"" and old[1:-1] == n.value:
+                out.append((n.lineno, n.col_offset, n.end_col_offset, old[0] + new + old[-1], f"look-alike string: {old} -> {old[0] + new + old[-1]}"))
+        elif isinstance(n, ast.Name) and isinstance(n.ctx, ast.Load) and one_line(n) and n.id in locals_ and len(locals_) > 1:
+            new = _swap_text(n.id)
+            if new is None or new not in locals_:
+                k = locals_.index(n.id)
+                new = locals_[(k + 1) % len(locals_)]
+            out.append((n.lineno, n.col_offset, n.end_col_offset, new, f"other local: `{n.id}` -> `{new}`"))
+    return out
 
 
 def _run(args):
